@@ -1086,7 +1086,14 @@ func checkClosingEdge(ctx *Ctx, r *Report) {
 	vtx, closed := paramName(fn, 0), paramName(fn, 1)
 	var app *Event
 	for i, e := range ev.Events {
-		if e.Callee == "append" && len(e.Args) >= 1 && valKey(e.Args[0]) == "sym:"+vtx {
+		// the slice itself, or a re-slice of it (vertex[:n:n] keeps the caller's array out of reach)
+		isVtx := func(v Val) bool {
+			if valKey(v) == "sym:"+vtx {
+				return true
+			}
+			return valKey(v) == "slice:"+vtx+"[a:b]" // a re-slice with symbolic bounds
+		}
+		if e.Callee == "append" && len(e.Args) >= 1 && isVtx(e.Args[0]) {
 			app = &ev.Events[i]
 		}
 	}
@@ -1621,4 +1628,106 @@ func checkCornerCrossingsMerged(ctx *Ctx, r *Report) {
 	if n == 0 {
 		r.check("W21", "Box2.lineIntersect|candidate-points", fn.Pos(), true, "no candidate point set is built by appending (rule not applicable to this shape)")
 	}
+}
+
+// ---------------------------------------------------------------- W22: the caller's vertices are read only
+
+func init() {
+	prev := registry["C04"].run
+	registry["C04"] = propDef{run: func(ctx *Ctx, r *Report, tier string) {
+		prev(ctx, r, tier)
+		checkVerticesNotWritten(ctx, r)
+	}}
+}
+
+// checkVerticesNotWritten (W22): Polygon2D and the functions it hands the caller's vertex slice
+// to do not write the slice's backing array: no element store through the parameter, and an
+// append to it is made through a slice whose capacity is limited to its length (v[:n:n]) or to
+// a copy. Appending the closing vertex to the caller's slice itself overwrites the element after
+// it when the slice has spare capacity - the first vertex of a second polygon carved from the same
+// array, which is then not the polygon its caller describes.
+func checkVerticesNotWritten(ctx *Ctx, r *Report) {
+	root := ctx.ssaFunc("sdf", "Polygon2D")
+	if root == nil || len(root.Params) == 0 {
+		r.undecided("W22", "Polygon2D", 0, "not found")
+		return
+	}
+	vt := root.Params[0].Type()
+	type job struct {
+		fn  *ssa.Function
+		par *ssa.Parameter
+	}
+	jobs := []job{{root, root.Params[0]}}
+	seen := map[*ssa.Function]bool{root: true}
+	n := 0
+	for len(jobs) > 0 {
+		j := jobs[0]
+		jobs = jobs[1:]
+		// values that share the parameter's backing array (and may write it in place)
+		var shares func(v ssa.Value, d int) (bool, bool) // (shares, capacity limited to length)
+		shares = func(v ssa.Value, d int) (bool, bool) {
+			if v == ssa.Value(j.par) {
+				return true, false
+			}
+			if d > 8 {
+				return false, false
+			}
+			switch x := v.(type) {
+			case *ssa.Slice:
+				if s, _ := shares(x.X, d+1); s {
+					return true, x.Max != nil && x.High != nil && x.Max == x.High
+				}
+			case *ssa.Phi:
+				for _, e := range x.Edges {
+					if _, isCall := e.(*ssa.Call); isCall {
+						continue // the result of an append: decided at that append
+					}
+					if s, lim := shares(e, d+1); s {
+						return true, lim
+					}
+				}
+			case *ssa.ChangeType:
+				return shares(x.X, d+1)
+			}
+			return false, false
+		}
+		bad := ""
+		allInstrs(j.fn, func(_ *ssa.BasicBlock, ins ssa.Instruction) {
+			switch x := ins.(type) {
+			case *ssa.Store:
+				a := x.Addr
+				if fa, ok := a.(*ssa.FieldAddr); ok {
+					a = fa.X
+				}
+				if ia, ok := a.(*ssa.IndexAddr); ok {
+					if s, _ := shares(ia.X, 0); s && bad == "" {
+						bad = " element stored at " + ctx.pos(x.Pos())
+					}
+				}
+			case *ssa.Call:
+				c := x.Common()
+				if bi, ok := c.Value.(*ssa.Builtin); ok {
+					if (bi.Name() == "append" || bi.Name() == "copy") && len(c.Args) > 0 {
+						if s, lim := shares(c.Args[0], 0); s && !lim && bad == "" {
+							bad = " " + bi.Name() + " into the caller's array at " + ctx.pos(x.Pos())
+						}
+					}
+					return
+				}
+				f := c.StaticCallee()
+				if f == nil || !inModule(f) || len(f.Blocks) == 0 || seen[f] {
+					return
+				}
+				for i, a := range c.Args {
+					if s, _ := shares(a, 0); s && i < len(f.Params) && types.Identical(f.Params[i].Type(), vt) {
+						seen[f] = true
+						jobs = append(jobs, job{f, f.Params[i]})
+					}
+				}
+			}
+		})
+		n++
+		r.check("W22", shortFn(j.fn)+"|does-not-write-the-caller's-vertices", j.fn.Pos(), bad == "", "no element store through, and no in-place append to, the vertex slice it is given;"+bad)
+	}
+	r.floor("W22", 2)
 }
